@@ -251,3 +251,29 @@ Theorem C04_window_reopens : forall b n a t v rest,
   0 < adv_wnd (rcvNxt (RC t)) (newAcc t1) (rcvWndScale (RC t)).
 Proof. exact window_reopens. Qed.
 Print Assumptions C04_window_reopens.
+
+(* ---------------------------------------------------------------- what the handshake leaves behind
+   (Proofs/TcpEstP.v): an active open answered by a SYN-ACK starts the connection with the SYN-ACK's
+   window field taken as it is (the window of a SYN segment is never scaled, RFC 7323 2.2), the send
+   scale the peer's option names (none: 0) and its own receive scale only if the peer sent the
+   option.  The first snapshot of every lock-step trace is compared with active_established. *)
+From NP Require Model.TcpHs Model.TcpEst Proofs.TcpEstP.
+
+Theorem C04_handshake_window_state : forall iss irs peerWnd o stackSack rb sb linkMtu iphdr t,
+  is_u32 iss ->
+  TcpEst.active_established iss irs peerWnd o stackSack rb sb linkMtu iphdr = Some t ->
+  cwnd (SN t) = 10 /\ outstanding (SN t) = 0 /\ tstate (SN t) = tDisabled /\ rto (SN t) = 1000000000 /\
+  sndWnd (SN t) = peerWnd /\
+  sndWndScale (SN t) = (if 0 <? TcpHs.so_ws o then TcpHs.so_ws o else 0) /\
+  rcvWndScale (RC t) = (if TcpHs.so_ws o <? 0 then 0 else TcpHs.findWndScale rb) /\
+  sndUna (SN t) = u32 (iss + 1) /\ sndNxt (SN t) = u32 (iss + 1) /\
+  rcvNxt (RC t) = u32 (irs + 1).
+Proof. exact TcpEstP.active_established_spec. Qed.
+Print Assumptions C04_handshake_window_state.
+
+Theorem C04_initial_mss_bound : forall mss mtu ts sack,
+  1 <= mss ->
+  1 <= TcpEst.initMaxPayload mss mtu ts sack /\
+  (TcpEst.initMaxPayload mss mtu ts sack <= mss \/ TcpEst.initMaxPayload mss mtu ts sack = 1).
+Proof. exact TcpEstP.initMaxPayload_bound. Qed.
+Print Assumptions C04_initial_mss_bound.
